@@ -4,8 +4,10 @@ B := build
 include mk/sodium.mk
 
 .PHONY: setup clean sodium-plain sodium-asan sodium-tsanabi
+# builds every engine against the current /repo so that the per-change checks only recompile what changed
 setup:
 	@mkdir -p $(B) evidence replays
+	@$(MAKE) --no-print-directory all
 	@echo setup ok
 
 sodium-plain: $(OBJS_plain)
@@ -67,9 +69,44 @@ c20: $(foreach v,plain asan plain_pma asan_pma plain_malloc asan_malloc,$(B)/bin
 
 $(B)/gen/keygens.inc: mk/gen_keygens.py $(wildcard $(SRC)/include/sodium/*.h)
 	@mkdir -p $(dir $@)
-	@python3 mk/gen_keygens.py $(REPO) > $@.tmp && mv $@.tmp $@
+	@python3 mk/gen_keygens.py $(SRC)/include/sodium > $@.tmp && mv $@.tmp $@
 $(B)/obj/asan/c18_rng.o $(B)/obj/plain/c18_rng.o: $(B)/gen/keygens.inc
 $(eval $(call ENGINE,c18_rng,plain,plain))
 $(eval $(call ENGINE,c18_rng,asan,asan))
 .PHONY: c18
 c18: $(B)/bin/c18_rng_plain $(B)/bin/c18_rng_asan
+
+EDEFS_c17_guard_plain := -DC17_VARIANT='"mmap"'
+EDEFS_c17_guard_plain_pma := -DC17_VARIANT='"posix_memalign"'
+$(eval $(call ENGINE,c17_guard,plain,plain))
+$(eval $(call ENGINE,c17_guard,plain_pma,plain))
+.PHONY: c17
+c17: $(B)/bin/c17_guard_plain $(B)/bin/c17_guard_plain_pma
+
+# ---------------- C19: TSan-instrumented libsodium + our own runtime ----------------
+C19_WRAP := $(WRAP_LDFLAGS) -Wl,--wrap=memcpy -Wl,--wrap=memmove -Wl,--wrap=memset -Wl,--wrap=explicit_bzero
+C19_CXXFLAGS := -O2 -g -fno-omit-frame-pointer
+$(B)/obj/tsanabi/simos.o: sim/simos.c sim/simos.h
+	@mkdir -p $(dir $@)
+	@clang -O2 -g -c $< -o $@
+$(B)/obj/tsanabi/simrt.o: sim/simrt.cpp $(SIM_HDRS)
+	@mkdir -p $(dir $@)
+	@echo "  CXX  $@"
+	@clang++ $(C19_CXXFLAGS) $(CXXSTD) $(ENGINE_INC) -c $< -o $@
+define C19BIN
+$(B)/obj/$(1)/c19_threads.o: sim/c19_threads.cpp $(SIM_HDRS) $(B)/gen/sodium/version.h
+	@mkdir -p $$(dir $$@)
+	@echo "  CXX  $$@"
+	@clang++ $(C19_CXXFLAGS) $(CXXSTD) $(ENGINE_INC) -DC19_LOCK_VARIANT='"$(2)"' -c $$< -o $$@
+$(B)/bin/c19_threads_$(1): $(B)/obj/$(1)/c19_threads.o $(B)/obj/tsanabi/simrt.o $(B)/obj/tsanabi/simos.o $$(OBJS_$(1))
+	@mkdir -p $$(dir $$@)
+	@echo "  LINK $$@"
+	@clang++ $(C19_CXXFLAGS) -o $$@ $$^ $(C19_WRAP) -pthread
+endef
+$(eval $(call C19BIN,tsanabi,pthread))
+$(eval $(call C19BIN,tsanabi_spin,spinlock))
+.PHONY: c19
+c19: $(B)/bin/c19_threads_tsanabi $(B)/bin/c19_threads_tsanabi_spin
+
+.PHONY: all
+all: c09 c17 c18 c19 c20
